@@ -354,6 +354,23 @@ func (p *Peer) Invoke(creator []byte, txid, fn string, args ...string) *Result {
 }
 
 // Init runs the chaincode's Init with raw arguments (no function name) and commits on success.
+// SimInit simulates an initialisation proposal without committing its write-set.
+func (p *Peer) SimInit(creator []byte, txid string, args ...string) (res *Result) {
+	raw := make([][]byte, 0, len(args))
+	for _, a := range args {
+		raw = append(raw, []byte(a))
+	}
+	st := p.newStub(creator, txid, raw)
+	res = &Result{Stub: st}
+	defer func() {
+		if rc := recover(); rc != nil {
+			res.Panic = rc
+		}
+	}()
+	res.Resp = p.CC.Init(st)
+	return res
+}
+
 func (p *Peer) Init(creator []byte, txid string, args ...string) (res *Result) {
 	raw := make([][]byte, 0, len(args))
 	for _, a := range args {
